@@ -539,7 +539,14 @@ func actCoq(c *actCase, o *actObs) string {
 				oo.Steps = append(oo.Steps, objStepObs{Ok: true, Objs: so.Objs, Muts: so.TailMuts})
 			}
 		}
-		if so.ManifestText != "" && so.DecoderDocs >= 0 {
+		// the split check where it matters: before an uninstall, and whenever documents share a template file
+		shared := s.Op == "uninstall"
+		for _, r := range s.Manifest {
+			if r.Sep != "" {
+				shared = true
+			}
+		}
+		if shared && so.ManifestText != "" && so.DecoderDocs >= 0 {
 			oc.Steps = append(oc.Steps, objStep{Verb: "split", Text: so.ManifestText, Docs: so.HelmDocs, NDocs: so.DecoderDocs})
 			oo.Steps = append(oo.Steps, objStepObs{Ok: true, Objs: so.Objs})
 		}
